@@ -7,6 +7,7 @@ import (
 	"go/token"
 	"go/types"
 	"math"
+	"regexp"
 	"sort"
 	"strconv"
 	"strings"
@@ -248,6 +249,24 @@ func init() {
 			return tuple{&cell, iface{}}
 		})
 	}
+
+	// ---- prometheus regex matchers: native regexp on the concrete pattern
+	reg("github.com/prometheus/prometheus/model/labels.NewFastRegexMatcher", func(fr *frame, args []value) value {
+		pat := str(args[0])
+		if _, err := regexp.Compile("^(?:" + pat + ")$"); err != nil {
+			return tuple{(*value)(nil), fr.i.errorString(err.Error())}
+		}
+		var cell value = structure{pat}
+		return tuple{&cell, iface{}}
+	})
+	reg("(*github.com/prometheus/prometheus/model/labels.FastRegexMatcher).MatchString", func(fr *frame, args []value) value {
+		pat := (*ptr(args[0])).(structure)[0].(string)
+		re := regexp.MustCompile("^(?:" + pat + ")$")
+		return re.MatchString(str(args[1]))
+	})
+	reg("(*github.com/prometheus/prometheus/model/labels.FastRegexMatcher).GetRegexString", func(fr *frame, args []value) value {
+		return (*ptr(args[0])).(structure)[0].(string)
+	})
 
 	// ---- fmt
 	reg("fmt.Sprintf", func(fr *frame, args []value) value {
